@@ -228,6 +228,13 @@ def run(spec, ctx):
                 ctx.violation("C06/cli-traceback", "peltool %s raised: %s" % (argv[2:], tb[-400:]))
                 continue
             if "-j" in argv:
+                # export again after the PEL was replaced by a shorter log with the same name and entry id
+                e0 = ents[0]
+                short = pm.Pel(e0.pel.creator, e0.pel.ph, e0.pel.uh, e0.pel.sections[:1])
+                with open(e0.path, "wb") as f:
+                    f.write(short.encode())
+                rc, out, err, tb = harness.cli(argv)
+                ctx.count("cli.reexports")
                 for fn in os.listdir(outdir):
                     with open(os.path.join(outdir, fn)) as f:
                         txt = f.read()
